@@ -214,6 +214,9 @@ func bedFilePool(n int) []bedRec {
 func runC04(r *core.Run) {
 	texts := enum.AllStrings("a\",# ", 2)
 	texts = append(texts, `"a"`, `a"b"`, "\x00", "\x80", "'", `\"`)
+	// the format's own vocabulary used as ordinary field content, and multi-byte UTF-8 (incl. the
+	// Unicode line separators and a BOM, which some line splitters treat specially)
+	texts = append(texts, "track", "track name=x", "browser", "browser position chr1", "chr", "#", "Track", "trackx", "é", "\xc5\x81", "日本", "\xe2\x80\xa8", "\xc2\x85", "\xef\xbb\xbfx", "a\xc2\xa0b")
 	var chroms []string
 	for _, t := range texts {
 		if !strings.HasPrefix(t, "#") {
